@@ -22,8 +22,14 @@ type propXML struct {
 }
 
 // layoutResponse phrases one DAV:response in the given layout; every layout is a conformant multi-status
-func layoutResponse(href string, props []propXML, layout string, d, extraNS string) string {
+func layoutResponse(href string, props []propXML, layout string, d, extraNS string, absent ...string) string {
 	var b strings.Builder
+	// absent: empty elements of the optional properties the resource does not have; the "absent404*" layouts report them
+	// in a 404 propstat (as most servers do), every other layout leaves them out
+	abs404 := ""
+	if len(absent) > 0 {
+		abs404 = "<" + d + "propstat><" + d + "prop>" + strings.Join(absent, "") + "</" + d + "prop><" + d + "status>HTTP/1.1 404 Not Found</" + d + "status></" + d + "propstat>"
+	}
 	nl := ""
 	if layout == "ws" {
 		nl = "\n\t  "
@@ -41,6 +47,18 @@ func layoutResponse(href string, props []propXML, layout string, d, extraNS stri
 		// one propstat per property, in reverse order
 		for i := len(props) - 1; i >= 0; i-- {
 			b.WriteString("<" + d + "propstat><" + d + "prop>" + props[i].xml + "</" + d + "prop>" + status(200) + "</" + d + "propstat>")
+		}
+	case "absent404", "absent404first":
+		if layout == "absent404first" {
+			b.WriteString(abs404)
+		}
+		b.WriteString("<" + d + "propstat><" + d + "prop>")
+		for _, p := range props {
+			b.WriteString(p.xml)
+		}
+		b.WriteString("</" + d + "prop>" + status(200) + "</" + d + "propstat>")
+		if layout == "absent404" {
+			b.WriteString(abs404)
 		}
 	case "opt404first":
 		// the propstat reporting absent optional properties precedes the one with the values
@@ -111,9 +129,17 @@ func c10doc(c C10Case, cc c10conc, ev map[string]interface{}, fail func(string, 
 			if c.Layout == "cdata" {
 				dataXML = "<" + cp + dataEl + "><![CDATA[" + strings.ReplaceAll(text, "]]>", "]]]]><![CDATA[>") + "]]></" + cp + dataEl + ">"
 			}
-			props := []propXML{
-				{"<" + d + "getetag>" + xesc(fmt.Sprintf("%q", cc.etag[o.Etag])) + "</" + d + "getetag>", true},
-				{"<" + d + "getlastmodified>" + cc.mtime[o.Mtime].UTC().Format(http.TimeFormat) + "</" + d + "getlastmodified>", true},
+			props := []propXML{}
+			var absent []string
+			if o.Etag != "e0" {
+				props = append(props, propXML{"<" + d + "getetag>" + xesc(fmt.Sprintf("%q", cc.etag[o.Etag])) + "</" + d + "getetag>", true})
+			} else {
+				absent = append(absent, "<"+d+"getetag/>")
+			}
+			if o.Mtime != "m0" {
+				props = append(props, propXML{"<" + d + "getlastmodified>" + cc.mtime[o.Mtime].UTC().Format(http.TimeFormat) + "</" + d + "getlastmodified>", true})
+			} else {
+				absent = append(absent, "<"+d+"getlastmodified/>")
 			}
 			if c.Call == "objs" {
 				props = append([]propXML{{dataXML, false}}, props...)
@@ -121,15 +147,18 @@ func c10doc(c C10Case, cc c10conc, ev map[string]interface{}, fail func(string, 
 			} else {
 				want = append(want, row(o.Path, o.Etag, o.Mtime, "-"))
 			}
-			resps.WriteString(layoutResponse((&url.URL{Path: cc.objPath(c.Srv, o.Path)}).String(), props, c.Layout, d, dns))
+			resps.WriteString(layoutResponse((&url.URL{Path: cc.objPath(c.Srv, o.Path)}).String(), props, c.Layout, d, dns, absent...))
 		}
 	case "cols":
 		// the home set itself comes first (not a calendar / address book: must be skipped by the client)
 		resps.WriteString(layoutResponse("/u/home/", []propXML{{"<" + d + "resourcetype><" + d + "collection/></" + d + "resourcetype>", false}}, c.Layout, d, dns))
 		for _, col := range c.Cols {
 			props := []propXML{{"<" + d + "resourcetype><" + d + "collection/><" + cp + colType + "/></" + d + "resourcetype>", false}}
+			var absent []string
 			if col.Name != "" {
 				props = append(props, propXML{"<" + d + "displayname>" + xesc(cc.name[col.Name]) + "</" + d + "displayname>", true})
+			} else {
+				absent = append(absent, "<"+d+"displayname/>")
 			}
 			descEl := "calendar-description"
 			if c.Srv == "card" {
@@ -137,9 +166,13 @@ func c10doc(c C10Case, cc c10conc, ev map[string]interface{}, fail func(string, 
 			}
 			if col.Desc != "" {
 				props = append(props, propXML{"<" + cp + descEl + ">" + xesc(cc.desc[col.Desc]) + "</" + cp + descEl + ">", true})
+			} else {
+				absent = append(absent, "<"+cp+descEl+"/>")
 			}
 			if col.Max != 0 {
 				props = append(props, propXML{"<" + cp + "max-resource-size>" + fmt.Sprint(cc.max[col.Max]) + "</" + cp + "max-resource-size>", true})
+			} else {
+				absent = append(absent, "<"+cp+"max-resource-size/>")
 			}
 			if c.Srv == "cal" {
 				s := "<" + cp + "supported-calendar-component-set>"
@@ -155,7 +188,7 @@ func c10doc(c C10Case, cc c10conc, ev map[string]interface{}, fail func(string, 
 				props = append(props, propXML{s + "</" + cp + "supported-address-data>", true})
 			}
 			want = append(want, objRow{"path": col.Path, "name": col.Name, "desc": col.Desc, "max": col.Max, "sup": col.Sup})
-			resps.WriteString(layoutResponse((&url.URL{Path: cc.colPath[col.Path]}).String(), props, c.Layout, d, dns))
+			resps.WriteString(layoutResponse((&url.URL{Path: cc.colPath[col.Path]}).String(), props, c.Layout, d, dns, absent...))
 		}
 	}
 	ev["want"] = want
